@@ -133,8 +133,18 @@ func TestVerifC15(t *testing.T) {
 		resend := func(c *mc.Ctx) {
 			vb := vNewBroker(&Spec{})
 			defer vb.close()
-			cl := vb.connect("c0", true)
-			cl.subscribe("t", 1)
+			// the subscriber is on a fresh clean session, or continues a persistent session that the broker restores
+			// from its store (it connected with cleanSession=false, subscribed, lost its link and reconnected)
+			var cl *vClient
+			if c.Choose(2, "subscriber-continues-a-stored-session") == 1 {
+				first := vb.connect("c0", false)
+				first.subscribe("t", 1)
+				first.drop()
+				cl = vb.connect("c0", false)
+			} else {
+				cl = vb.connect("c0", true)
+				cl.subscribe("t", 1)
+			}
 			cl.take()
 			nmsg := 1 + c.Choose(3, "messages")
 			for m := 0; m < nmsg; m++ {
